@@ -182,7 +182,11 @@ func (w *worker) work(controller inputer, jobProvider *jobProvider, readBufferSi
 						inBuf = accumBuf
 					}
 
-					job.lastEventSeq = controller.In(sourceID, sourceName, pipeline.NewOffsets(lastOffset+scanned, offsets), inBuf, isVirgin, metadataInfo)
+					// a refused record (empty, undecodable, ...) has no sequence number:
+					// keep the number of the last accepted event, truncation handling relies on it
+					if seq := controller.In(sourceID, sourceName, pipeline.NewOffsets(lastOffset+scanned, offsets), inBuf, isVirgin, metadataInfo); seq != pipeline.EventSeqIDError {
+						job.lastEventSeq = seq
+					}
 				}
 				// restore the line buffer
 				accumBuf = accumBuf[:0]
